@@ -124,6 +124,7 @@ type refTrie struct {
 	proofs map[string][][]byte
 	shape  string
 	m      map[string][]byte // the content itself (read-only)
+	pre    [][]byte          // serialized nodes in pre-order (a branch's value before its other children)
 }
 
 func (rt *refTrie) collect(n *rnode, path []byte, trail [][]byte, sb *strings.Builder) {
@@ -180,6 +181,23 @@ func buildRef(m map[string][]byte) *refTrie {
 	if root != nil {
 		rt.root = root.hash
 		rt.collect(root, nil, nil, &sb)
+		var po func(n *rnode)
+		po = func(n *rnode) {
+			if n == nil {
+				return
+			}
+			rt.pre = append(rt.pre, n.bytes)
+			switch n.typ {
+			case tExt:
+				po(n.next)
+			case tBranch:
+				po(n.kids[16])
+				for i := 0; i < 16; i++ {
+					po(n.kids[i])
+				}
+			}
+		}
+		po(root)
 	} else {
 		sb.WriteString("empty")
 	}
